@@ -175,14 +175,14 @@ pub fn run(ctx: &Ctx, rec: &mut Rec) {
         rec.declare_class(cl);
     }
     let mut zrng = rng_for(ctx.seed, P, 999, 0);
-    let zoo = elements_for_gadgets(ctx, &mut zrng, ctx.scale(6, 60));
+    let zoo = elements_for_gadgets(ctx, &mut zrng, ctx.scale(12, 60));
     // work list: (gadget index, input)
     let mut work: Vec<(usize, Inp, String)> = Vec::new();
     for (gi, g) in gs.iter().enumerate() {
         let budget = match g.kind {
-            "EBits" => ctx.scale(28, 400),
-            "F" => ctx.scale(90, 1500),
-            _ => ctx.scale(70, 1200),
+            "EBits" => ctx.scale(60, 400),
+            "F" => ctx.scale(200, 1500),
+            _ => ctx.scale(160, 1200),
         };
         for (inp, cl) in inputs_for(ctx, g, &zoo, &mut zrng, budget) {
             work.push((gi, inp, cl));
@@ -203,6 +203,7 @@ pub fn run(ctx: &Ctx, rec: &mut Rec) {
         }
     });
     lazy_histories(ctx, rec, &zoo);
+    gadget_programs(ctx, rec, &zoo);
     rec.check_coverage();
 }
 
@@ -340,6 +341,185 @@ fn lazy_histories(ctx: &Ctx, rec: &mut Rec, zoo: &[SE]) {
                         }
                     }
                 }
+            }
+        }
+    });
+}
+
+/// Random straight-line *circuit programs*: a register file of (ElementVar, native Element)
+/// pairs, operated on by in-place and by-value gadget operations interleaved with operations
+/// that force the lazily evaluated encoding / element. After the program the system must be
+/// satisfied and every register must still agree with its native shadow, both as element and
+/// as encoding. This is where a stale memoised encoding or element would show.
+fn gadget_programs(ctx: &Ctx, rec: &mut Rec, zoo: &[SE]) {
+    use crate::zoo::rand_range;
+    use ark_ec::Group;
+    const OPS: [&str; 16] = [
+        "prog: a + b", "prog: a - b", "prog: reg += b", "prog: reg -= b", "prog: reg.negate()", "prog: reg.double_in_place()",
+        "prog: reg.compress_to_field()", "prog: reg.value()", "prog: decompress(compress(reg))", "prog: conditionally_select",
+        "prog: reg + Element", "prog: reg += Element", "prog: clone", "prog: scalar_mul_le(small)", "prog: reg.double()", "prog: is_eq",
+    ];
+    for o in OPS {
+        rec.declare_form(o);
+    }
+    for st in ["start: raw element", "start: new_witness<Element>", "start: new_input<Element>", "start: new_witness<Fq> encoding", "start: constant"] {
+        rec.declare_class(st);
+    }
+    let nprog = ctx.scale(700, 12_000);
+    par(rec, |w, n, rec| {
+        let mut rng = rng_for(ctx.seed, P, w, 77);
+        for pi in 0..nprog {
+            if pi % n != w {
+                continue;
+            }
+            let len = 3 + rand_range(&mut rng, 12);
+            // choose everything up front so that the guarded closure is deterministic
+            let starts: Vec<(usize, El)> = (0..3).map(|_| (rand_range(&mut rng, 5), zoo[rand_range(&mut rng, zoo.len())].l)).collect();
+            let steps: Vec<(usize, usize, usize, u64)> = (0..len).map(|_| (rand_range(&mut rng, OPS.len()), rand_range(&mut rng, 8), rand_range(&mut rng, 8), rand_below(&mut rng, &b(16)).to_u64_digits().first().copied().unwrap_or(0))).collect();
+            let konst = zoo[rand_range(&mut rng, zoo.len())].l;
+            rec.eval(&("gadget-program", pi, ctx.seed), false);
+            rec.count("gadget_programs", 1);
+            rec.count("gadget_program_steps", len as u64);
+            for (k, _) in &starts {
+                rec.class(["start: raw element", "start: new_witness<Element>", "start: new_input<Element>", "start: new_witness<Fq> encoding", "start: constant"][*k]);
+            }
+            for (o, _, _, _) in &steps {
+                rec.form(OPS[*o]);
+            }
+            let (starts2, steps2) = (starts.clone(), steps.clone());
+            let res = guarded(move || -> Result<Vec<String>, String> {
+                let cs = new_cs(false);
+                let se = |e: ark_relations::r1cs::SynthesisError| format!("{e:?}");
+                let mut problems: Vec<String> = Vec::new();
+                let mut regs: Vec<(ElementVar, El)> = Vec::new();
+                for (kind, e) in &starts2 {
+                    let e = *e;
+                    let v: ElementVar = match kind {
+                        0 => raw(&cs, &e).map_err(se)?,
+                        1 => ElementVar::new_witness(cs.clone(), || Ok(e)).map_err(se)?,
+                        2 => ElementVar::new_input(cs.clone(), || Ok(e)).map_err(se)?,
+                        3 => {
+                            let enc_f = e.vartime_compress_to_field();
+                            AllocVar::<Fq, Fq>::new_witness(cs.clone(), || Ok(enc_f)).map_err(se)?
+                        }
+                        _ => ElementVar::new_constant(cs.clone(), e).map_err(se)?,
+                    };
+                    regs.push((v, e));
+                }
+                for (si, (op, i, j, small)) in steps2.iter().enumerate() {
+                    let (i, j) = (i % regs.len(), j % regs.len());
+                    let (bv, bn) = (regs[j].0.clone(), regs[j].1);
+                    match OPS[*op] {
+                        "prog: a + b" => {
+                            let r = (regs[i].0.clone() + bv, regs[i].1 + bn);
+                            regs.push(r);
+                        }
+                        "prog: a - b" => {
+                            let r = (regs[i].0.clone() - bv, regs[i].1 - bn);
+                            regs.push(r);
+                        }
+                        "prog: reg += b" => {
+                            regs[i].0 += bv;
+                            regs[i].1 = regs[i].1 + bn;
+                        }
+                        "prog: reg -= b" => {
+                            regs[i].0 -= bv;
+                            regs[i].1 = regs[i].1 - bn;
+                        }
+                        "prog: reg.negate()" => {
+                            let r = (regs[i].0.negate().map_err(se)?, -regs[i].1);
+                            regs[i] = r;
+                        }
+                        "prog: reg.double_in_place()" => {
+                            regs[i].0.double_in_place().map_err(se)?;
+                            regs[i].1 = regs[i].1 + regs[i].1;
+                        }
+                        "prog: reg.double()" => {
+                            let r = (regs[i].0.double().map_err(se)?, regs[i].1 + regs[i].1);
+                            regs.push(r);
+                        }
+                        "prog: reg.compress_to_field()" => {
+                            let f = regs[i].0.compress_to_field().map_err(se)?;
+                            if f.value().map_err(se)? != regs[i].1.vartime_compress_to_field() {
+                                problems.push(format!("step {si}: compress_to_field of register {i} differs from the native encoding"));
+                            }
+                        }
+                        "prog: reg.value()" => {
+                            if regs[i].0.value().map_err(se)? != regs[i].1 {
+                                problems.push(format!("step {si}: value() of register {i} differs from the native element"));
+                            }
+                        }
+                        "prog: decompress(compress(reg))" => {
+                            let f = regs[i].0.compress_to_field().map_err(se)?;
+                            let r = (ElementVar::decompress_from_field(f).map_err(se)?, regs[i].1);
+                            regs.push(r);
+                        }
+                        "prog: conditionally_select" => {
+                            let cond = *small % 2 == 0;
+                            let cv = wb(&cs, cond).map_err(se)?;
+                            let r = (ElementVar::conditionally_select(&cv, &regs[i].0, &bv).map_err(se)?, if cond { regs[i].1 } else { bn });
+                            regs.push(r);
+                        }
+                        "prog: reg + Element" => {
+                            let r = (regs[i].0.clone() + konst, regs[i].1 + konst);
+                            regs.push(r);
+                        }
+                        "prog: reg += Element" => {
+                            regs[i].0 += konst;
+                            regs[i].1 = regs[i].1 + konst;
+                        }
+                        "prog: clone" => {
+                            let r = (regs[i].0.clone(), regs[i].1);
+                            regs.push(r);
+                        }
+                        "prog: scalar_mul_le(small)" => {
+                            let bits: Vec<Boolean<Fq>> = (0..4).map(|k| wb(&cs, (small >> k) & 1 == 1)).collect::<Result<_, _>>().map_err(se)?;
+                            let r = (regs[i].0.scalar_mul_le(bits.iter()).map_err(se)?, Group::mul_bigint(&regs[i].1, [*small & 15]));
+                            regs.push(r);
+                        }
+                        "prog: is_eq" => {
+                            let bvar = regs[i].0.is_eq(&bv).map_err(se)?;
+                            if bvar.value().map_err(se)? != (regs[i].1 == bn) {
+                                problems.push(format!("step {si}: is_eq of registers {i},{j} differs from native =="));
+                            }
+                        }
+                        _ => unreachable!(),
+                    }
+                    if regs.len() > 8 {
+                        regs.remove(0);
+                    }
+                }
+                // final state: every register agrees with its shadow, as element and as encoding
+                for (k, (v, nat)) in regs.iter().enumerate() {
+                    let f = v.compress_to_field().map_err(se)?;
+                    if f.value().map_err(se)? != nat.vartime_compress_to_field() {
+                        problems.push(format!("final: encoding of register {k} differs from the native encoding"));
+                    }
+                }
+                if !cs.is_satisfied().map_err(se)? {
+                    problems.push("final: constraint system of an honest program is not satisfied".into());
+                } else {
+                    for (k, (v, nat)) in regs.iter().enumerate() {
+                        if v.value().map_err(se)? != *nat {
+                            problems.push(format!("final: value of register {k} differs from the native element"));
+                        }
+                    }
+                }
+                Ok(problems)
+            });
+            let detail = json!({"starts": starts.iter().map(|(k, e)| json!({"kind": k, "element": el_json(e)})).collect::<Vec<_>>(), "steps": steps.iter().map(|(o, i, j, s)| json!([OPS[*o], i, j, s])).collect::<Vec<_>>()});
+            match res {
+                Err(pn) => rec.violation(format!("{P}:gadget-program:panic"), format!("honest gadget program panicked: {pn}"), detail),
+                Ok(Err(se)) => rec.violation(format!("{P}:gadget-program:synthesis-error"), format!("honest gadget program failed to synthesise: {se}"), detail),
+                Ok(Ok(problems)) => {
+                    for pr in problems {
+                        let kind = if pr.contains("encoding") { "stale-or-wrong-encoding" } else if pr.contains("value") { "wrong-value" } else if pr.contains("satisfied") { "unsatisfied" } else { "other" };
+                        rec.violation(format!("{P}:gadget-program:{kind}"), pr, detail.clone());
+                    }
+                }
+            }
+            if pi < 2 {
+                rec.sample(json!({"gadget_program": steps.iter().map(|(o, _, _, _)| OPS[*o]).collect::<Vec<_>>()}));
             }
         }
     });
